@@ -1,5 +1,5 @@
 (* C10: CRC framing appends the right checksum and never accepts a wrong one. *)
-From PV Require Import Base MachineInt DataModel Ser De Crc SerFlavors DeFlavors CrcFacts CrcBurst.
+From PV Require Import Base MachineInt DataModel Ser De Crc SerFlavors DeFlavors CrcFacts CrcBurst Cobs Crc SerFlavors ModDecl GenModifiers ModInterp ModFacts.
 Open Scope N_scope.
 
 (* CRC-framed output = plain encoding ++ little-endian checksum of exactly those bytes *)
@@ -85,6 +85,32 @@ Example C10_detection_example :
   take_from_bytes_crc crc32_iso_hdlc 4 (TInt U16) [173; 2; 54; 128; 101; 173; 7] = Err DeserializeBadCrc.
 Proof. split; vm_compute; reflexivity. Qed.
 
+(* the CRC modifier of these theorems is the code: try_push and finalize of ser/flavors.rs's
+   CrcModifier are re-read from the source on every run and interpreted over any inner flavour;
+   the deserialisation side is matched against a template with holes (which bytes reach the
+   digest, how many checksum bytes are read, the two error kinds, the five widths) *)
+Theorem C10_crc_try_push_is_the_source : forall (St Out : Type) (inner : sflavor St Out) (alg : crc_alg) (nb : nat)
+    (s : St) (e : enc_state) (d : N) (b : byte),
+  crcm_push inner alg (s, d) b =
+  let* '(m, _) := mrun inner alg nb crc_try_push [MvByte b] {| ms_inner := s; ms_cobs := e; ms_digest := d |} in
+  Ok (ms_inner m, ms_digest m).
+Proof. exact @crc_push_is_source. Qed.
+Theorem C10_crc_finalize_is_the_source : forall (St Out : Type) (inner : sflavor St Out) (alg : crc_alg) (nb : nat)
+    (s : St) (e : enc_state) (d : N),
+  crcm_finalize inner alg nb (s, d) =
+  let* '(_, out) := mrun inner alg nb crc_finalize_steps [] {| ms_inner := s; ms_cobs := e; ms_digest := d |} in
+  match out with Some o => Ok o | None => Panic end.
+Proof. exact @crc_finalize_is_source. Qed.
+Theorem C10_crc_de_is_the_source :
+  crc_de_pop_updates_digest_with_the_byte = true /\ crc_de_take_updates_digest_with_the_bytes = true /\
+  crc_de_finalize = (DeserializeBadEncoding, DeserializeBadCrc) /\ crc_de_widths = crc_ser_widths.
+Proof. exact crc_de_is_source. Qed.
+
+Theorem C10_modifiers_define_exactly :
+  cobs_methods = [nm_try_push; nm_finalize] /\ crc_ser_methods = [nm_try_push; nm_finalize] /\
+  crc_de_entry_points_finalize_through_the_modifier = true.
+Proof. exact modifiers_define_exactly. Qed.
+
 Print Assumptions C10_output.
 Print Assumptions C10_roundtrip.
 Print Assumptions C10_accept_sound.
@@ -95,3 +121,7 @@ Print Assumptions C10_single_bit_detected.
 Print Assumptions C10_burst_rejected.
 Print Assumptions C10_bit_flip_rejected.
 Print Assumptions C10_alg_ok.
+Print Assumptions C10_crc_try_push_is_the_source.
+Print Assumptions C10_crc_finalize_is_the_source.
+Print Assumptions C10_crc_de_is_the_source.
+Print Assumptions C10_modifiers_define_exactly.
